@@ -348,6 +348,10 @@ class _Canon(ast.NodeTransformer):
         if isinstance(f, ast.Name):
             if f.id == "float" and len(node.args) == 1 and isinstance(node.args[0], ast.Attribute) and node.args[0].attr in ("max", "min", "eps"):
                 return node.args[0]
+            if f.id == "int" and len(node.args) == 1 and not node.keywords and isinstance(node.args[0], (ast.Attribute, ast.Subscript, ast.Name)):
+                return node.args[0]  # int() of a size / bit width / count is the identity
+            if f.id == "int" and len(node.args) == 1 and not node.keywords and isinstance(node.args[0], ast.Call) and isinstance(node.args[0].func, ast.Attribute) and node.args[0].func.attr in ("numel", "size", "dim", "item"):
+                return node.args[0]
             if f.id == "len" and len(node.args) == 1 and isinstance(node.args[0], ast.Attribute) and node.args[0].attr == "shape":
                 return ast.Attribute(value=node.args[0].value, attr="ndim", ctx=ast.Load())
             if f.id == "range" and len(node.args) == 2 and isinstance(node.args[0], ast.Constant) and node.args[0].value == 0 and not node.keywords:
@@ -658,16 +662,22 @@ KEEP_METHODS = {"_save_to_state_dict", "_load_from_state_dict", "_conv_forward",
 
 
 def _replace_node(root: ast.AST, old: ast.AST, new: ast.AST) -> ast.AST:
+    """A copy of `root` in which the node `old` (by identity) is replaced by a copy of `new`; `root` is left untouched."""
     if root is old:
         return copy.deepcopy(new)
+    old._qv_mark = True
+    try:
+        dup = copy.deepcopy(root)
+    finally:
+        del old._qv_mark
 
     class R(ast.NodeTransformer):
         def visit(self, node):
-            if node is old:
+            if getattr(node, "_qv_mark", False):
                 return copy.deepcopy(new)
             return super().visit(node)
 
-    return R().visit(root)
+    return R().visit(dup)
 
 
 class InlineCtx:
@@ -694,6 +704,8 @@ class InlineCtx:
                     v = mi.defs.get(node.id)
                     if isinstance(v, ast.Constant) and isinstance(v.value, (int, float, str)) and not isinstance(v.value, bool):
                         return ast.copy_location(ast.Constant(value=v.value), node)
+                    if isinstance(v, (ast.Tuple, ast.List)) and all(isinstance(x, (ast.Constant, ast.Name)) or (isinstance(x, ast.UnaryOp) and isinstance(x.operand, ast.Constant)) for x in v.elts):
+                        return ast.copy_location(copy.deepcopy(v), node)
                 return node
 
         return C().visit(e)
@@ -1144,6 +1156,39 @@ def paths_of(fn: ast.FunctionDef, bind: Optional[dict] = None, prune: bool = Tru
     return [p for p in ps if path_feasible(p)] if prune else ps
 
 
+def canon_function(fn: ast.FunctionDef) -> ast.FunctionDef:
+    """A canonically spelled deep copy of a function (for the abstract interpreters), registered under the module/class of the original."""
+    if id(fn) in _CANON_FN:
+        return _CANON_FN[id(fn)]
+    c = copy.deepcopy(fn)
+    c = ast.fix_missing_locations(_Canon().visit(c))
+    _CANON_FN[id(fn)] = c
+    _CANON_FN[id(c)] = c
+    _KEEPALIVE.append(fn)
+    if id(fn) in _MODULE_OF:
+        _MODULE_OF[id(c)] = _MODULE_OF[id(fn)]
+        for n in ast.walk(c):
+            if isinstance(n, ast.FunctionDef):
+                _MODULE_OF[id(n)] = _MODULE_OF[id(fn)]
+    if id(fn) in _CLASS_OF:
+        _CLASS_OF[id(c)] = _CLASS_OF[id(fn)]
+    _KEEPALIVE.append(c)
+    return c
+
+
+_KEEPALIVE: list = []
+_CANON_FN: Dict[int, ast.FunctionDef] = {}
+
+
+def module_lookup(fn: ast.FunctionDef, name: str):
+    """Module-level definition `name` visible from the module of `fn` (function def, class def or assigned value)."""
+    mi = _MODULE_OF.get(id(fn))
+    if mi is None or ACTIVE_REPO is None:
+        return None
+    r = ACTIVE_REPO.resolve(mi, name)
+    return r[1] if r is not None else None
+
+
 def loop_body_paths(outer: ast.FunctionDef, loop: ast.For, pre_env: Optional[dict] = None) -> List[Path]:
     """Paths of one iteration of `loop` (a For node of `outer`): the loop target is bound to an opaque element of the
     iterable, names assigned before the loop in straight-line code are substituted."""
@@ -1457,6 +1502,8 @@ def fold_int(e: ast.AST, env: Optional[dict] = None):
                 return a >> b
         except (ZeroDivisionError, TypeError, ValueError):
             return None
+    if isinstance(e, ast.Call) and isinstance(e.func, ast.Name) and e.func.id == "int" and len(e.args) == 1 and not e.keywords:
+        return fold_int(e.args[0], env)
     if isinstance(e, ast.Call) and isinstance(e.func, ast.Name) and e.func.id in ("min", "max") and not e.keywords:
         vals = [fold_int(a, env) for a in e.args]
         if all(v is not None for v in vals) and vals:
